@@ -383,6 +383,19 @@ def main():
         if not lb["driver_ok"]:
             broken.append("driver does not build: " + lb["log"][-800:])
 
+    if cfg.get("confirm_rerun"):
+        # timing-dependent families: a disagreeing record is re-run alone once before it is believed
+        kept = []
+        for t in an.ne:
+            if kept:  # one confirmed disagreement is enough; the rest is kept unverified
+                kept.append(t)
+                continue
+            r = eval_session(cfg, fam, t[0], f"{pid}/confirm")
+            if any(a.startswith("NE") for (_, _, a) in r):
+                kept.append(t)
+            else:
+                notes.append(f"not reproduced when re-run alone (model/implementation): {t[1][:160]} -> {t[3][:120]}")
+        an.ne = kept
     for (s, inp, impl, ans) in an.err[:3]:
         hard_fail.append(f"driver rejected record: {inp[:200]} -> {ans}")
     if an.ne:
@@ -396,6 +409,11 @@ def main():
     for (sess, inp, impl, h) in an.h0:
         clause = h[3:] if h.startswith("H0:") else h
         key = (clause.split("@")[0], inp.split(" ")[0])
+        if cfg.get("confirm_rerun") and seen_classes.get(key, 0) == 0:
+            r = eval_session(cfg, fam, sess, f"{pid}/confirm")
+            if not any(" H0" in a for (_, _, a) in r):
+                notes.append(f"not reproduced when re-run alone: {inp[:160]} {h}")
+                continue
         if seen_classes.get(key, 0) >= 1:
             seen_classes[key] += 1
             continue
